@@ -505,6 +505,71 @@ def dash_names(item):
     return part
 
 
+MODES = [0o644, 0o755, 0o4755, 0o4644, 0o2755, 0o2644, 0o1777, 0o1770, 0o7777, 0o7000, 0o000, 0o111]
+
+
+def mode_bits(item):
+    """entries of a real directory carry every combination of permission bits (setuid / setgid / sticky, with and
+    without the matching x): the ls-format line the server writes for them is one the client reads"""
+    backend, kind = item
+    import os
+    part = report.Partial()
+    names = {f"e{m:04o}": m for m in MODES}
+    tree = {"dir": {n: ({"in": b"1"} if kind == "dir" else b"12345") for n in names}}
+    rig = Rig(tree=tree, backend=backend, epoch0=EPOCH)
+    w = rig.world
+    a = w.aioftp
+    problems = []
+    for n, m in names.items():
+        os.chmod(rig.base / "dir" / n, m)
+    out = {}
+
+    async def main():
+        c = a.Client(path_io_factory=a.MemoryPathIO)
+        await c.connect("127.0.0.1", 2121)
+        await c.login()
+        out["mlsd"] = [(str(p_), dict(i)) for p_, i in await c.list("/dir")]
+        out["list"] = [(str(p_), dict(i)) for p_, i in await c.list("/dir", raw_command="LIST")]
+        rig.server.commands_mapping.pop("mlst")
+        rig.server.commands_mapping.pop("mlsd")
+        out["stat-list-fallback"] = [("/dir/" + n, dict(await c.stat("/dir/" + n))) for n in names]
+        await c.quit()
+
+    try:
+        try:
+            w.run(main())
+        except Hang:
+            problems.append({"kind": "hang", "via": "?"})
+        except Exception as exc:
+            problems.append({"kind": "exception", "via": "list" if "mlsd" in out else "mlsd", "exc": repr(exc)[:300]})
+        for via, got in out.items():
+            if sorted(p_ for p_, _ in got) != sorted("/dir/" + n for n in names):
+                problems.append({"kind": "names", "via": via, "got": sorted(p_ for p_, _ in got)})
+                continue
+            for p_, info in got:
+                if info.get("type") != kind:
+                    problems.append({"kind": "type", "via": via, "name": p_, "got": info.get("type"), "want": kind})
+                if kind == "file" and str(info.get("size")) != "5":
+                    problems.append({"kind": "size", "via": via, "name": p_, "got": info.get("size"), "want": 5})
+        part.evaluations += 1
+        part.traces += 1
+        part.transitions += w.net.n_events
+        k = report.fp(["mode-bits", backend, kind])
+        part.states.add(k)
+        part.nontrivial.add(k)
+        for p in problems[:1]:
+            part.violation({"kind": p["kind"], "via": p["via"], "mode_bits": True, "backend": backend}, {"problem": p},
+                           replay={"modes": list(item)})
+    finally:
+        for n in names:
+            try:
+                os.chmod(rig.base / "dir" / n, 0o755)
+            except OSError:
+                pass
+        rig.close()
+    return part
+
+
 def faulty_listing(item):
     """one backend call of the listing fails: the client must learn that the listing failed - a listing that is
     reported complete has every entry exactly once"""
@@ -595,6 +660,7 @@ def run(tier, seed, t0):
                                               for act, victims in (("delete", ("a", "c", "e")), ("create", ("0", "cc", "z")))
                                               for victim in victims for k in range(1, 40 if tier == "quick" else 80, 2 if tier == "quick" else 1)]) \
         + report.pmap(dash_names, [(b, f) for b in ("memory", "pathio") for f in (False, True)]) \
+        + report.pmap(mode_bits, [(b, k) for b in ("pathio", "async") for k in ("file", "dir")]) \
         + report.pmap(cross_session, [(b, h) for b in ("memory", "pathio", "async")
                                       for h in ("delete-upload", "rename-into-place", "overwrite")])
     part = report.merge_all(parts)
@@ -605,6 +671,7 @@ def run(tier, seed, t0):
               "listing_during_change": "5 entries, lock-step data connection; another session deletes / creates a sibling after "
                                        "every network event of the listing; LIST and MLSD, 3 backends",
               "dash_names": "entries named -old, -1, -la, -x listed / stat'ed by their bare relative name (MLSD, LIST, LIST-only server)",
+              "mode_bits": "files and directories of a real directory with modes %s (MLSD, LIST, stat on a LIST-only server)" % [oct(m) for m in MODES],
               "cross_session": "a second session replaces a file (3 ways) and a directory between two looks of the first; 3 backends",
               "aged_listing": "LIST verb, data connection 10 s .. 1 h later, an entry created in between (both zones)",
               "faulty_listing": "4 entries, MLSD and LIST, the k-th backend call of the listing fails, k=1..15",
@@ -628,6 +695,8 @@ def replay(path):
         part = faulty_listing(tuple(rp["faulty"]))
     elif "dash" in rp:
         part = dash_names(tuple(rp["dash"]))
+    elif "modes" in rp:
+        part = mode_bits(tuple(rp["modes"]))
     elif "during" in rp:
         part = listing_during_change(tuple(rp["during"]))
     elif "cross" in rp:
